@@ -134,8 +134,29 @@ def handoff_setter(rep: Report, m: Fn, field: str, swaps_old: bool) -> None:
             ok2 = len(dold) == 1 or (not dold and any(old_is_none(p, o) for o in olds))
             rep.ob("L4-handoff", m, f"{m.name}: replaced item disposed :: {desc}", ok2,
                    "the previously held item is swapped out but not disposed exactly once on this path")
+            if dold and "STORE" in k:
+                rep.ob("L4-handoff", m, f"{m.name}: new item installed before the replaced one is disposed :: {desc}", k.index("STORE") < k.index(dold[0]),
+                       "the replaced item is disposed before the new one is installed: an assignment made while the old item is being "
+                       "disposed (its dispose re-enters the setter) is overwritten afterwards without being disposed")
         n_ok += 1
     rep.require(n_ok >= 2, f"paths through {m.ref}")
+    if swaps_old:
+        # the swap (read the held item, read the flag, store the new item) is one critical section
+        par = m.module.parents
+
+        def region(n):
+            while n is not None and n is not m.node:
+                if isinstance(n, ast.With) and any(u(it.context_expr).endswith("lock") for it in n.items):
+                    return n
+                n = par.get(n)
+            return None
+        reads = [s.node for s in sites(m) if isinstance(s.node, (ast.Assign, ast.AnnAssign)) and s.node.value is not None and field_of(s.node.value) in (field, "is_disposed")]
+        stores = [s.node for s in sites(m) if ev(s.node) == "STORE"]
+        regs = {id(region(n)) for n in reads + stores}
+        ok = bool(reads) and bool(stores) and all(region(n) is not None for n in reads + stores) and len(regs) == 1
+        rep.ob("L4-handoff", m, f"{m.name}: held item read, flag read and new item stored in one critical section", ok,
+               "the swap is not one critical section: between reading the held item / the disposed flag and storing the new item another "
+               "assignment or dispose() can run, and an item is lost undisposed")
 
 
 def handoff_dispose(rep: Report, m: Fn, field: str) -> None:
